@@ -19,10 +19,11 @@ pub mod c14;
 pub mod c15;
 pub mod c16;
 pub mod c17;
+pub mod c19;
 
 use crate::engine::{json, Case, Run};
 
-pub const ALL: [&str; 17] = ["C01", "C02", "C03", "C04", "C05", "C06", "C07", "C08", "C09", "C10", "C11", "C12", "C13", "C14", "C15", "C16", "C17"];
+pub const ALL: [&str; 18] = ["C01", "C02", "C03", "C04", "C05", "C06", "C07", "C08", "C09", "C10", "C11", "C12", "C13", "C14", "C15", "C16", "C17", "C19"];
 
 pub fn known(id: &str) -> bool {
     ALL.contains(&id)
@@ -47,6 +48,7 @@ pub fn run(run: &Run) {
         "C15" => c15::run(run),
         "C16" => c16::run(run),
         "C17" => c17::run(run),
+        "C19" => c19::run(run),
         _ => unreachable!(),
     }
 }
@@ -71,6 +73,7 @@ pub fn replay_case(prop: &str, case: &Case) -> Result<Result<(), (String, String
         "C15" => c15::replay(case),
         "C16" => c16::replay(case),
         "C17" => c17::replay(case),
+        "C19" => c19::replay(case),
         _ => Err(format!("unknown property {}", prop)),
     }
 }
@@ -93,6 +96,21 @@ pub fn replay_file(path: &str) -> i32 {
     let prop = j.get("property").and_then(|x| x.as_str()).unwrap_or("").to_string();
     let case_s = j.get("case").and_then(|x| x.as_str()).unwrap_or("").to_string();
     let case = Case::parse(&case_s);
+    if case.opt("bin") == Some("rng") {
+        return match std::env::var("LSX_RNG") {
+            Ok(exe) => match std::process::Command::new(exe).arg("replay").arg(path).status() {
+                Ok(st) => st.code().unwrap_or(2),
+                Err(e) => {
+                    eprintln!("MACHINERY-ERROR cannot run lsx-rng: {}", e);
+                    2
+                }
+            },
+            Err(_) => {
+                eprintln!("MACHINERY-ERROR LSX_RNG not set (use ./check replay)");
+                2
+            }
+        };
+    }
     if case.opt("prof") == Some("checked") && crate::engine::profile() != "checked" {
         // the case was observed in the checked-profile binary: replay it there
         return match std::env::var("LSX_CHECKED") {
